@@ -306,6 +306,8 @@ func run(line string) string {
 				}
 			}
 			return "kept=" + hx.Join(kept, ",")
+		case "seq":
+			return runSeq(t)
 		case "names":
 			ps, err := fromNames(t[1], unhexList(t[3]))
 			if err != nil {
@@ -409,6 +411,108 @@ func run(line string) string {
 	})
 }
 
+// ---- operation sequences: a filter is a pure function
+
+// seqRun filters ONE plugin slice with several capability tuples in a row. It records every call's result right after the
+// call (r=), reads every earlier result again after all calls (after=) and reads the input slice at the end (input=): a
+// filter must not mutate its argument nor what it returned earlier.
+func seqRun[T plugin.Plugin](ps []T, filter func([]T, *plugin.Capabilities) []T, capsSeq []string, sorted bool) string {
+	names := func(xs []T) string {
+		o := make([]string, len(xs))
+		for i, x := range xs {
+			if sorted {
+				o[i] = hx.Hex(x.Name())
+			} else {
+				o[i] = x.Name()
+			}
+		}
+		if sorted {
+			sort.Strings(o)
+		}
+		return hx.Join(o, ",")
+	}
+	var results [][]T
+	var r []string
+	for _, cs := range capsSeq {
+		c := capsOf(cs)
+		res := filter(ps, &c)
+		results = append(results, res)
+		r = append(r, names(res))
+	}
+	var after []string
+	for _, res := range results {
+		after = append(after, names(res))
+	}
+	return "r=" + strings.Join(r, "|") + " after=" + strings.Join(after, "|") + " input=" + names(ps)
+}
+
+// seq <kind> <l:req;req;… | n:hexname,… | c:caps> <caps;caps;…>
+func runSeq(t []string) string {
+	if len(t) != 4 || len(t[2]) < 2 {
+		return "bad-op"
+	}
+	src, arg := t[2][0], t[2][2:]
+	capsSeq := strings.Split(t[3], ";")
+	var reqs []string
+	if src == 'l' && arg != "-" {
+		reqs = strings.Split(arg, ";")
+	}
+	switch t[1] {
+	case "fs":
+		var ps []filesystem.Extractor
+		switch src {
+		case 'l':
+			for i, r := range reqs {
+				ps = append(ps, fakeFS{fake{strconv.Itoa(i), capsOf(r)}})
+			}
+		case 'n':
+			var err error
+			if ps, err = el.ExtractorsFromNames(unhexList(arg)); err != nil {
+				return "res=badname"
+			}
+		case 'c':
+			c := capsOf(arg)
+			ps = el.FromCapabilities(&c)
+		}
+		return seqRun(ps, el.FilterByCapabilities, capsSeq, src != 'l')
+	case "st":
+		var ps []standalone.Extractor
+		switch src {
+		case 'l':
+			for i, r := range reqs {
+				ps = append(ps, fakeST{fake{strconv.Itoa(i), capsOf(r)}})
+			}
+		case 'n':
+			var err error
+			if ps, err = sl.ExtractorsFromNames(unhexList(arg)); err != nil {
+				return "res=badname"
+			}
+		case 'c':
+			c := capsOf(arg)
+			ps = sl.FromCapabilities(&c)
+		}
+		return seqRun(ps, sl.FilterByCapabilities, capsSeq, src != 'l')
+	case "det":
+		var ps []detector.Detector
+		switch src {
+		case 'l':
+			for i, r := range reqs {
+				ps = append(ps, fakeDet{fake{strconv.Itoa(i), capsOf(r)}, nil})
+			}
+		case 'n':
+			var err error
+			if ps, err = dl.DetectorsFromNames(unhexList(arg)); err != nil {
+				return "res=badname"
+			}
+		case 'c':
+			c := capsOf(arg)
+			ps = dl.FromCapabilities(&c)
+		}
+		return seqRun(ps, dl.FilterByCapabilities, capsSeq, src != 'l')
+	}
+	return "bad-op"
+}
+
 // ---- generation
 
 func keysOf[T any](m map[string][]T) []string {
@@ -473,6 +577,21 @@ func main() {
 		}
 	}
 	emit("uniq")
+	// operation sequences (both tiers): the registry's `all` list, the `default` list and a FromCapabilities result, filtered
+	// with every ordered pair of 10 representative capability tuples, and with three tuples in a row
+	rep := []string{"0000", "1011", "1211", "2000", "2100", "3011", "1000", "1111", "2211", "3200"}
+	for _, k := range kinds {
+		for _, a := range rep {
+			for _, b := range rep {
+				if a != b {
+					emit("seq " + k + " n:" + hx.Hex("all") + " " + a + ";" + b)
+				}
+			}
+			emit("seq " + k + " n:" + hx.Hex("default") + " " + a + ";1011;2000")
+			emit("seq " + k + " c:" + a + " 1011;2000;" + a)
+			emit("seq " + k + " n:" + hx.Hex("all") + " " + a + ";2000;1011;" + a)
+		}
+	}
 	// one hand-made detector: every registered exact name as its only required extractor, under a few
 	// detector requirements, for every capability tuple (covers auto-enabling into an invalid configuration)
 	for _, k := range []string{"fs", "st"} {
@@ -503,6 +622,19 @@ func main() {
 		return ns
 	}
 	for i := 0; i < o.N; i++ {
+		if i%6 == 5 {
+			k := pick(kinds)
+			n := 1 + r.Intn(7)
+			var reqs, cs []string
+			for j := 0; j < n; j++ {
+				reqs = append(reqs, pick(caps))
+			}
+			for j := 2 + r.Intn(3); j > 0; j-- {
+				cs = append(cs, pick(caps))
+			}
+			emit("seq " + k + " l:" + strings.Join(reqs, ";") + " " + strings.Join(cs, ";"))
+			continue
+		}
 		switch r.Intn(5) {
 		case 4:
 			var ns []string
